@@ -184,7 +184,43 @@ impl T {
     pub fn set_date(&mut self, date: chrono::DateTime<chrono::FixedOffset>) {
         self.0.set("Date", date.to_rfc2822().as_str());
     }
+    pub fn g_relaxed(&self) -> Option<Relations> {
+        self.0
+            .get("Depends")
+            .map(|s| Relations::parse_relaxed(&s, true).0)
+    }
+    pub fn g_root_flag(&self) -> Option<bool> {
+        self.0
+            .get("Rules-Requires-Root")
+            .and_then(|s| match s.to_lowercase().as_str() {
+                "yes" | "binary-targets" => Some(true),
+                "no" => Some(false),
+                // a list of keywords (<namespace>/<case>): not a yes/no answer
+                _ => None,
+            })
+    }
+    pub fn set_license_display(&mut self, license: &License) {
+        let text = license.to_string();
+        self.0.set("License", &text);
+    }
     // ---- near misses: must be Unrecognised ----
+    pub fn n_by_value(self) -> Option<String> {
+        self.0.get("A")
+    }
+    pub fn n_relaxed_no_substvars(&self) -> Option<Relations> {
+        self.0
+            .get("Depends")
+            .map(|s| Relations::parse_relaxed(&s, false).0)
+    }
+    pub fn n_root_flag_panics(&self) -> Option<bool> {
+        self.0
+            .get("Rules-Requires-Root")
+            .and_then(|s| match s.to_lowercase().as_str() {
+                "yes" | "binary-targets" => Some(true),
+                "no" => Some(false),
+                _ => panic!("x"),
+            })
+    }
     pub fn n_other_receiver(&self) -> Option<String> {
         self.1.get("A")
     }
